@@ -163,7 +163,10 @@ pub trait Sut: 'static {
     /// One flush; every object write is recorded. `fail_at = Some(k)`: the
     /// k-th write (0-based, bucket puts then the metadata put) returns an error
     /// instead of landing.
-    fn flush(idx: &Self::Index, now: u64, fail_at: Option<usize>) -> FlushOut;
+    /// `hook = Some((k, f))`: `f` is called from INSIDE the write closure of
+    /// the k-th write, before that write lands (a mutation that arrives while
+    /// the flush is awaiting its I/O).
+    fn flush(idx: &Self::Index, now: u64, fail_at: Option<usize>, hook: Option<(usize, &dyn Fn())>) -> FlushOut;
     fn load(cfg: &Self::Cfg, store: &Store) -> Result<Self::Index, String>;
     /// Model adjustment when the live index is replaced by a loaded one.
     fn on_load(_model: &mut Self::Model) {}
@@ -218,7 +221,7 @@ fn do_flush<S: Sut>(live: &mut Live<S>, fail_at: Option<usize>) -> Result<FlushR
     live.now += 1;
     let pre_store = live.store.clone();
     let now = live.now;
-    let out = match catch_unwind(AssertUnwindSafe(|| S::flush(&live.idx, now, fail_at))) {
+    let out = match catch_unwind(AssertUnwindSafe(|| S::flush(&live.idx, now, fail_at, None))) {
         Ok(o) => o,
         Err(_) => FlushOut {
             puts: vec![],
@@ -339,6 +342,7 @@ pub struct CrashTally {
     pub matched_new: u64,
     pub followups: u64,
     pub err_prefixes: u64,
+    pub midflush: u64,
     pub max_journal_len: u64,
 }
 
@@ -352,6 +356,7 @@ impl CrashTally {
         self.matched_new += o.matched_new;
         self.followups += o.followups;
         self.err_prefixes += o.err_prefixes;
+        self.midflush += o.midflush;
         self.max_journal_len = self.max_journal_len.max(o.max_journal_len);
     }
 }
@@ -363,6 +368,10 @@ pub struct CrashOpts<O> {
     pub cuts: bool,
     /// also fail every write position once and retry
     pub err_prefixes: bool,
+    /// mutations performed (one at a time) from inside the write closure at
+    /// every write position of the flush, for histories up to `midflush_depth`
+    pub midflush: Vec<O>,
+    pub midflush_depth: usize,
 }
 
 pub enum Mode<O> {
@@ -724,6 +733,92 @@ fn crash_enumerate<S: Sut>(
             }
         }
     }
+    // a mutation that lands while the flush is awaiting its writes
+    if hist.len() <= opts.midflush_depth {
+        for k in 0..rec.n_puts {
+            for op in &opts.midflush {
+                c.crash.midflush += 1;
+                c.execs += 1;
+                midflush_one::<S>(cfg, start, hist, k, k + 1 == rec.n_puts && rec.committed, op, c)?;
+            }
+        }
+    }
+    Ok(())
+}
+
+/// History, then a flush during which `op` is applied from inside the write
+/// closure of write `k`; then an undisturbed second flush. Demands what
+/// flush documents: the payloads are frozen before the first await (so the
+/// first flush commits the pre-mutation snapshot, whole), the mutation stays
+/// dirty, and the next flush persists it.
+fn midflush_one<S: Sut>(
+    cfg: &S::Cfg,
+    start: &Start<S::Op>,
+    hist: &[&HOp<S::Op>],
+    k: usize,
+    at_commit: bool,
+    op: &S::Op,
+    c: &mut Cand,
+) -> Result<(), Fail> {
+    let mut live = run_ops::<S>(cfg, start, hist).map_err(|f| f.prefixed("replayed-prefix:"))?;
+    let pos = if at_commit { "before-commit-write" } else { "before-bucket-write" };
+    let tag = format!("midflush:{pos}:{}:", S::op_kind(op));
+    let pre_model = live.model.clone();
+    live.now += 2;
+    let now = live.now;
+    let cell: std::cell::RefCell<(S::Model, Result<(), Fail>, u32)> =
+        std::cell::RefCell::new((live.model.clone(), Ok(()), 0));
+    let out = {
+        let idx = &live.idx;
+        let hook = || {
+            let mut g = cell.borrow_mut();
+            let (m, r, n) = &mut *g;
+            *n += 1;
+            *r = guard("op", || S::apply(idx, cfg, op, m, now));
+        };
+        match catch_unwind(AssertUnwindSafe(|| S::flush(idx, now - 1, None, Some((k, &hook))))) {
+            Ok(o) => o,
+            Err(_) => return Err(Fail::new(format!("{tag}panic-in-flush"), "flush panicked")),
+        }
+    };
+    let (post_model, applied, calls) = cell.into_inner();
+    applied.map_err(|f| f.prefixed(&tag))?;
+    if calls != 1 {
+        return Err(Fail::new("machinery:midflush-hook", format!("hook ran {calls} times at write {k}")));
+    }
+    live.model = post_model;
+    let obsolete = out.result.map_err(|e| Fail::new(format!("{tag}flush-error"), e))?;
+    for e in &out.puts {
+        apply_entry(&mut live.store, e);
+    }
+    for o in obsolete {
+        apply_entry(&mut live.store, &JEntry::Del(o));
+    }
+    // 1. what the disturbed flush committed is the pre-mutation snapshot, whole
+    {
+        let st = &live.store;
+        let re = guard("load", || S::load(cfg, st).map_err(|e| Fail::new(format!("{tag}load-failed"), e)))?;
+        let evals = &mut c.evals;
+        guard("battery", || S::light_battery(&re, cfg, &pre_model, evals))
+            .map_err(|x| x.prefixed(&format!("{tag}first-flush-not-the-snapshot:")))?;
+    }
+    // 2. the live index has the mutation
+    {
+        let (idx, model) = (&live.idx, &live.model);
+        let evals = &mut c.evals;
+        guard("battery", || S::light_battery(idx, cfg, model, evals)).map_err(|x| x.prefixed(&format!("{tag}live:")))?;
+    }
+    // 3. the next, undisturbed flush persists it
+    live.committed = pre_model;
+    do_flush(&mut live, None).map_err(|(_, e)| Fail::new(format!("{tag}second-flush-error"), e))?;
+    {
+        let st = &live.store;
+        let re = guard("load", || S::load(cfg, st).map_err(|e| Fail::new(format!("{tag}second-load-failed"), e)))?;
+        let model = &live.model;
+        let evals = &mut c.evals;
+        guard("battery", || S::light_battery(&re, cfg, model, evals))
+            .map_err(|x| x.prefixed(&format!("{tag}not-persisted-by-next-flush:")))?;
+    }
     Ok(())
 }
 
@@ -1013,6 +1108,7 @@ fn finish_counts(run: &mut Run, out: &ExploreOut, crash: &CrashTally, execs: u64
         run.add("crash_matched_interrupted", crash.matched_new);
         run.add("crash_followup_executions", crash.followups);
         run.add("flush_error_injections", crash.err_prefixes);
+        run.add("midflush_mutation_executions", crash.midflush);
         let prev = run.get("max_journal_len");
         if crash.max_journal_len > prev {
             run.add("max_journal_len", crash.max_journal_len - prev);
